@@ -30,6 +30,9 @@ def gen_plan(rng, tier):
     for s in specs[1:]:
         if s["name"] == specs[0]["name"] and rng.random() < 0.8:
             s["n"], s["idl"] = specs[0]["n"], specs[0]["idl"]
+    for s in specs:
+        if rng.random() < 0.25:
+            s["value_shift"] = rng.choice([1e-3, -0.05, 0.5])     # central value != mean of the samples (as after importing resampled non-linear functions)
     ops = []
     for _ in range(rng.randint(4, 14)):
         r = rng.random()
@@ -52,7 +55,12 @@ def gen_plan(rng, tier):
 def build(spec):
     import pyerrors as pe
     ch = {"n": spec["n"], "data": spec["data"]}
-    return pe.Obs([objs.chain_data(ch)], [spec["name"]], idl=[objs.idl_obj(spec["idl"])])
+    o = pe.Obs([objs.chain_data(ch)], [spec["name"]], idl=[objs.idl_obj(spec["idl"])])
+    if spec.get("value_shift"):
+        j = o.export_jackknife()
+        j[0] += spec["value_shift"] * (abs(j[0]) + 1.0)
+        o = pe.import_jackknife(j, spec["name"], idl=[o.idl[spec["name"]]])
+    return o
 
 
 def partner_handler(req):
@@ -103,11 +111,15 @@ def execute(plan, ctx):
         if kind == "jackknife":
             j = o.export_jackknife()
             ctx.compared += n + 1
+            shifted = bool(plan["specs"][i].get("value_shift"))
             tot = math.fsum(x)
             exp = np.array([(tot - xi) / (n - 1) for xi in x])
+            if shifted:
+                # documented construction for derived observables: samples relative to the central value
+                exp = np.array([(n * o.value - xi) / (n - 1) for xi in x])
             if j.shape != (n + 1,) or j[0] != o.value:
                 ctx.violation("c13.jackknife_export", "export_jackknife", "entry0", "entry 0 is %r, central value %r (shape %r)" % (j[0] if len(j) else None, o.value, j.shape))
-            elif not np.all(np.abs(j[1:] - exp) <= 32 * np.finfo(float).eps * scale):
+            elif not np.all(np.abs(j[1:] - exp) <= 32 * np.finfo(float).eps * (scale + abs(o.value))):
                 k = int(np.argmax(np.abs(j[1:] - exp)))
                 ctx.violation("c13.jackknife_export", "export_jackknife", "leave_one_out", "sample %d is %.17g, leave-one-out mean %.17g" % (k + 1, j[1 + k], exp[k]))
             # variance identity
@@ -115,7 +127,7 @@ def execute(plan, ctx):
             var = (n - 1) / n * float(np.sum((j[1:] - jm) ** 2))
             o.gamma_method(S=0)
             ctx.compared += 1
-            if not abs(var - o.dvalue ** 2) <= 1e-8 * max(var, o.dvalue ** 2) + 1e-20 * scale ** 2:
+            if not shifted and not abs(var - o.dvalue ** 2) <= 1e-8 * max(var, o.dvalue ** 2) + 1e-20 * scale ** 2:
                 ctx.violation("c13.jackknife_variance", "export_jackknife", "S0", "jackknife variance %.17g, squared naive error %.17g" % (var, o.dvalue ** 2))
             idl = o.idl[name]
             try:
@@ -125,7 +137,10 @@ def execute(plan, ctx):
                 continue
             ctx.compared += n
             bx = back.deltas[name] + back.r_values[name]
-            if back.names != [name] or back.value != o.value or not np.all(np.abs(bx - x) <= 64 * n * np.finfo(float).eps * scale):
+            if shifted:
+                # central value != sample mean: the fluctuations and the value are what the transform preserves
+                bx = back.deltas[name] + o.r_values[name]
+            if back.names != [name] or back.value != o.value or not np.all(np.abs(bx - x) <= 64 * n * np.finfo(float).eps * (scale + abs(o.value))):
                 ctx.violation("c13.jackknife_import", "import_jackknife", "restore", "observable not restored (max deviation %.3g, value %r vs %r)" % (float(np.max(np.abs(bx - x))), back.value, o.value))
             if op["idl_given"]:
                 if list(back.idl[name]) != list(idl) or isinstance(back.idl[name], range) != isinstance(idl, range):
@@ -243,10 +258,14 @@ def imp(ctx, pe, o, x, b, name, R, scale, disc):
         ctx.probe("rank_deficient_not_judged")
         return
     cond = sv[0] / sv[-1]
+    R0 = R.copy()
     try:
         back = pe.import_bootstrap(b, name, R)
     except Exception as e:
         ctx.violation("c13.bootstrap_import", "import_bootstrap", "raised", "%s: %s" % (type(e).__name__, str(e)[:100]))
+        return
+    if not np.array_equal(R, R0):
+        ctx.violation("c13.bootstrap_import", "import_bootstrap", "table_mutated", "the supplied random-number table was modified by the import")
         return
     bx = back.deltas[name] + back.r_values[name]
     tol = 1e3 * cond * np.finfo(float).eps * scale * n
